@@ -205,6 +205,32 @@ def psd_layouts(d, ctx):
         require_close(got2, got, 'psd-invariant-to-mask-scale',
                       atol=max(1e-9, 10 * rt) * max(scale, 1e-300))
         ctx.label('mask-scale-checked')
+    # "for all complex observations": a recording whose squares leave the double
+    # range (|x| of 1e-160 or 1e160) under a mask whose level brings every term
+    # m x x^H back into it - exact powers of two, so the result is the one above
+    # times a power of two; an all-zero mask still gives exact zeros
+    if d.epoch >= 3 and M is not None and X.dtype == np.complex128 and \
+            (m.dtype == np.float64 or mkind == 'zero') and scale > 0 or \
+            (d.epoch >= 3 and M is not None and mkind == 'zero' and X.dtype == np.complex128):
+        aux = d.aux(106)
+        if int(aux.integers(0, 3)) == 0:
+            sign = 1 if aux.integers(0, 2) else -1
+            ex, em = sign * int(aux.integers(515, 541)), -sign * int(aux.integers(690, 711))
+            X3 = X * 2.0 ** ex
+            if mkind == 'zero':
+                got3 = ctx.lib(f, X3, M, **kw)
+                require(np.all(np.isfinite(got3)) and np.all(got3 == 0),
+                        'zero-mask-gives-zero-matrix', f'observations of level 2^{ex}')
+                ctx.label('extreme-level-zero-mask')
+            elif not normalize and m.dtype == np.float64:
+                M3 = M * 2.0 ** em
+                got3 = ctx.lib(f, X3, M3, **kw)
+                fac = 2.0 ** (em + 2 * ex)
+                require_close(got3, np.asarray(got) * fac,
+                              'psd-is-mask-weighted-mean-outer-product',
+                              atol=1e-12 * scale * fac,
+                              what=f'observations times 2^{ex}, mask times 2^{em}', mask=mode)
+                ctx.label('extreme-level-compensated')
     ctx.nontrivial(mode == 'source' and K >= 2 and (
         layout != 'default' or 'source_dim' in kw or mkind == 'bool'
         or len({T, D, K}) == 3))
